@@ -396,7 +396,7 @@ macro_rules! conv {
     };
 }
 
-// @verif prop=C16 tier=thorough fl=f1 feat=map4 role=convert/list-to-map t=3600 mem=30
+// @verif prop=C16 tier=thorough fl=f1 feat=map4 role=convert/list-to-map t=3600 mem=16
 #[cfg_attr(kani, kani::proof)]
 #[cfg_attr(kani, kani::unwind(10))]
 pub fn c16_list_to_map_n3() {
@@ -417,21 +417,21 @@ pub fn c16_list_to_edge_list_n3() {
     convert::<AdjacencyList, EdgeList, 3>();
 }
 
-// @verif prop=C16 tier=thorough fl=f1 feat=map4 role=convert/map-to-list t=3600 mem=30
+// @verif prop=C16 tier=thorough fl=f1 feat=map4 role=convert/map-to-list t=3600 mem=16
 #[cfg_attr(kani, kani::proof)]
 #[cfg_attr(kani, kani::unwind(10))]
 pub fn c16_map_to_list_n3() {
     convert::<AdjacencyMap, AdjacencyList, 3>();
 }
 
-// @verif prop=C16 tier=thorough fl=f1 feat=map4 role=convert/map-to-matrix t=3600 mem=30
+// @verif prop=C16 tier=thorough fl=f1 feat=map4 role=convert/map-to-matrix t=3600 mem=16
 #[cfg_attr(kani, kani::proof)]
 #[cfg_attr(kani, kani::unwind(10))]
 pub fn c16_map_to_matrix_n3() {
     convert::<AdjacencyMap, AdjacencyMatrix, 3>();
 }
 
-// @verif prop=C16 tier=thorough fl=f1 feat=map4 role=convert/map-to-edge-list t=3600 mem=30
+// @verif prop=C16 tier=thorough fl=f1 feat=map4 role=convert/map-to-edge-list t=3600 mem=16
 #[cfg_attr(kani, kani::proof)]
 #[cfg_attr(kani, kani::unwind(10))]
 pub fn c16_map_to_edge_list_n3() {
@@ -445,7 +445,7 @@ pub fn c16_matrix_to_list_n3() {
     convert::<AdjacencyMatrix, AdjacencyList, 3>();
 }
 
-// @verif prop=C16 tier=thorough fl=f1 feat=map4 role=convert/matrix-to-map t=3600 mem=30
+// @verif prop=C16 tier=thorough fl=f1 feat=map4 role=convert/matrix-to-map t=3600 mem=16
 #[cfg_attr(kani, kani::proof)]
 #[cfg_attr(kani, kani::unwind(10))]
 pub fn c16_matrix_to_map_n3() {
@@ -466,7 +466,7 @@ pub fn c16_edge_list_to_list_n3() {
     convert::<EdgeList, AdjacencyList, 3>();
 }
 
-// @verif prop=C16 tier=thorough fl=f1 feat=map4 role=convert/edge-list-to-map t=3600 mem=30
+// @verif prop=C16 tier=thorough fl=f1 feat=map4 role=convert/edge-list-to-map t=3600 mem=16
 #[cfg_attr(kani, kani::proof)]
 #[cfg_attr(kani, kani::unwind(10))]
 pub fn c16_edge_list_to_map_n3() {
@@ -531,28 +531,28 @@ pub fn c16_from_rows_list_rejects_n3() {
     from_rows::<3, 4>(0, false);
 }
 
-// @verif prop=C16 tier=thorough fl=f1 feat=map4 role=from-rows/adjacency-map t=3600 mem=24
+// @verif prop=C16 tier=thorough fl=f1 feat=map4 role=from-rows/adjacency-map t=3600 mem=16
 #[cfg_attr(kani, kani::proof)]
 #[cfg_attr(kani, kani::unwind(10))]
 pub fn c16_from_rows_map_n3() {
     from_rows::<3, 4>(1, true);
 }
 
-// @verif prop=C16 tier=thorough fl=f1 feat=map4 role=from-rows-rejects/adjacency-map t=3600 mem=24 expect=panic
+// @verif prop=C16 tier=thorough fl=f1 feat=map4 role=from-rows-rejects/adjacency-map t=3600 mem=16 expect=panic
 #[cfg_attr(kani, kani::proof)]
 #[cfg_attr(kani, kani::unwind(10))]
 pub fn c16_from_rows_map_rejects_n3() {
     from_rows::<3, 4>(1, false);
 }
 
-// @verif prop=C16 tier=thorough fl=f1 role=from-rows/weighted t=3600 mem=30
+// @verif prop=C16 tier=thorough fl=f1 role=from-rows/weighted t=3600 mem=24
 #[cfg_attr(kani, kani::proof)]
 #[cfg_attr(kani, kani::unwind(10))]
 pub fn c16_from_weight_rows_n3() {
     from_weight_rows::<3, 4>(true);
 }
 
-// @verif prop=C16 tier=thorough fl=f1 role=from-rows-rejects/weighted t=3600 mem=30 expect=panic
+// @verif prop=C16 tier=exp fl=f1 role=from-rows-rejects/weighted t=3600 mem=30 expect=panic
 #[cfg_attr(kani, kani::proof)]
 #[cfg_attr(kani, kani::unwind(10))]
 pub fn c16_from_weight_rows_rejects_n3() {
@@ -560,7 +560,7 @@ pub fn c16_from_weight_rows_rejects_n3() {
 }
 
 // AdjacencyMatrix::from(1..=3 arcs with ids < 4, duplicates allowed): order = largest id + 1, exactly those arcs.
-// @verif prop=C16 tier=thorough fl=f0 role=from-arcs/matrix t=3600 mem=30
+// @verif prop=C16 tier=exp fl=f0 role=from-arcs/matrix t=3600 mem=30
 #[cfg_attr(kani, kani::proof)]
 #[cfg_attr(kani, kani::unwind(10))]
 pub fn c16_from_arcs_matrix_k3() {
@@ -657,4 +657,21 @@ pub fn c16_from_weight_rows_n2() {
 #[cfg_attr(kani, kani::unwind(8))]
 pub fn c16_from_weight_rows_rejects_n2() {
     from_weight_rows::<2, 3>(false);
+}
+
+// AdjacencyMatrix::from(1..=3 arcs with ids < 4, duplicates allowed). The order is a symbolic value here, so the
+// block vector gets a fixed-size model buffer (feature fixedcap) instead of a symbolic-size allocation.
+// @verif prop=C16 tier=thorough fl=f2 feat=fixedcap role=from-arcs/matrix t=3000 mem=16
+#[cfg_attr(kani, kani::proof)]
+#[cfg_attr(kani, kani::unwind(10))]
+pub fn c16_from_arcs_matrix_fixedcap_k3() {
+    from_arcs::<3, 4>(0);
+}
+
+// ... with 1..=2 arcs (quick).
+// @verif prop=C16 tier=quick fl=f2 feat=fixedcap role=from-arcs/matrix t=1500 mem=20
+#[cfg_attr(kani, kani::proof)]
+#[cfg_attr(kani, kani::unwind(10))]
+pub fn c16_from_arcs_matrix_fixedcap_k2() {
+    from_arcs::<2, 4>(0);
 }
